@@ -216,7 +216,7 @@ def family_interceptors():
     for n in (1, 2, 3):
         for fname, plan in (("none", None), ("retry", {"part": {"0": "retry"}}), ("drop_after", {"conn": "drop_after"})):
             for v in ("0.10.0.0", "0.11.0.0"):
-                cfg = dict(interceptors=n, retryMax=2, leaders=[1], nbrokers=1, version=v)
+                cfg = dict(interceptors=n, retryMax=2, leaders=[1], nbrokers=1, version=v, icKind=("", "value", "func")[(n + len(fname)) % 3])
                 steps = submits([(1, 0), (2, 0)]) + [{"op": "wait_outcomes", "n": 2, "ms": 3000}] + submits([(3, 0)])
                 steps += [{"op": "wait_outcomes", "n": 3, "ms": 3000}, {"op": "close"}]
                 out.append(sc("ic%d-%s-%s" % (n, fname, v), "interceptors", cfg, steps, {"1": plan} if plan else {}))
@@ -470,10 +470,11 @@ def family_ic_panic():
     for n in (2, 3):
         for pidx in range(1, n + 1):
             for v in ("0.10.0.0", "0.11.0.0"):
-                cfg = dict(interceptors=n, panicIc=pidx, retryMax=1, leaders=[1], nbrokers=1, version=v)
-                steps = [{"op": "submit", "id": 1, "part": 0}, {"op": "submit", "id": 2, "part": 0, "nilval": True},
-                         {"op": "submit", "id": 3, "part": 0, "key": "kk"}, {"op": "wait_outcomes", "n": 3, "ms": 3000}, {"op": "close"}]
-                out.append(sc("icpanic%d-%d-%s" % (n, pidx, v), "ic_panic", cfg, steps))
+                for kind in ("", "value", "func"):     # dynamic type of the interceptors: pointer, struct value, func adapter
+                    cfg = dict(interceptors=n, panicIc=pidx, retryMax=1, leaders=[1], nbrokers=1, version=v, icKind=kind)
+                    steps = [{"op": "submit", "id": 1, "part": 0}, {"op": "submit", "id": 2, "part": 0, "nilval": True},
+                             {"op": "submit", "id": 3, "part": 0, "key": "kk"}, {"op": "wait_outcomes", "n": 3, "ms": 3000}, {"op": "close"}]
+                    out.append(sc("icpanic%d-%d-%s%s" % (n, pidx, v, "-" + kind if kind else ""), "ic_panic", cfg, steps))
     return out
 
 
@@ -740,6 +741,11 @@ def check(ctx, pid, families, mc_cfgs, level="model_checking", extra_assumptions
                        "configuration families) executed on the real AsyncProducer against the simulated cluster; every recorded "
                        "event consumed by the total observer spec/ProducerObsTrace.tla",
     }
+    if pid == "C01" and ctx.tier == "thorough":
+        # the repository's own tests, run with the hooks on: every partition worker they create must be explained by the
+        # model's retry state machine (spec/PpConfTrace.tla); soft
+        import reposuite
+        cov["repo_suite_partition_worker_conformance"] = reposuite.run(ctx, {"pp"}, run_pattern="Producer")
     assumptions = ["simulated cluster (harness/inpkg/sim_cluster_test.go) is a faithful Kafka broker for produce/metadata/init-producer-id "
                    "(it decodes requests with sarama's own codec)",
                    "one submitting goroutine per scenario; Return.Successes and Return.Errors enabled; channels always drained",
